@@ -95,6 +95,13 @@ def check_case(ctx, t, v, nodes, packed, legacy, names, schemes=True):
         ctx.mismatch('C04:build:raises:%s%s:%s' % (cls, key_note(t), type(e).__name__), 'from_micheline_value of the readable notation raised %r: %s' % (e, what), case)
         return False
     ok = True
+    # ---- the same text as a plain string is a different value: whichever of the two is packed first, each gets its own bytes
+    text = rj.get('string') if isinstance(rj, dict) and t != ('string',) else None
+    if text is not None:
+        import zlib
+        string_first = zlib.crc32(text.encode()) % 2 == 0
+        if string_first:
+            ok = lookalike(ctx, text, what, case, 'before') and ok
     # ---- PACK
     try:
         got = ('ok', x.pack())
@@ -106,6 +113,12 @@ def check_case(ctx, t, v, nodes, packed, legacy, names, schemes=True):
             ok = False
         elif g[1] != packed:
             ctx.mismatch('C04:%s:bytes:%s' % (site, cls), '%s of %s = %s, Tezos: %s' % (site, what, g[1].hex(), packed.hex()), case)
+            ok = False
+    if text is not None:
+        ok = lookalike(ctx, text, what, case, 'after') and ok
+        g = run_pack(md.mtype(tj).from_micheline_value(rj))
+        if g[0] != 'ok' or g[1] != packed:
+            ctx.mismatch('C04:PACK:after-lookalike-string:%s' % cls, 'PACK of %s after PACK of the string with the same text = %s, Tezos: %s' % (what, g[1].hex() if g[0] == 'ok' else g, packed.hex()), case)
             ok = False
     # ---- PACK does not depend on annotations
     if schemes:
@@ -146,6 +159,18 @@ def check_case(ctx, t, v, nodes, packed, legacy, names, schemes=True):
             ctx.mismatch('C04:%s:value:%s' % (site, cls), '%s of %s at %s gives %r (== original: %s), expected %r' % (site, packed.hex(), json.dumps(tj), py, same, want), case)
             ok = False
     return ok
+
+
+def lookalike(ctx, text, what, case, when):
+    """PACK of the plain string with the text of a typed value (address, key, ...) = 05 01 <len> <text>, independent of what was packed earlier in the process"""
+    from pytezos.michelson.types import StringType
+    want = b'\x05\x01' + len(text.encode()).to_bytes(4, 'big') + text.encode()
+    ctx.count(('lookalike', text, when), nontrivial=True)
+    g = run_pack(StringType.from_value(text))
+    if g[0] != 'ok' or g[1] != want:
+        ctx.mismatch('C04:PACK:lookalike-string:%s' % when, 'PACK of the string "%s" (%s PACK of %s) = %s, Tezos: %s' % (text, when, what, g[1].hex() if g[0] == 'ok' else g, want.hex()), case)
+        return False
+    return True
 
 
 def check_mutant(ctx, t, base, mut):
